@@ -228,7 +228,7 @@ def build(unit_name, outdir, global_rw=()):
             cur.d['rw'].append(parse_rw(arg) + ({'rw': True, 'rw?': False, 'rw!': 'critical'}[key],))
         elif key == 'builtin' and arg == 'map_or_else':
             cur.d['rw'].append(('@map_or_else', None, False))
-        elif key == 'builtin' and arg in ('optmap', 'resmap'):
+        elif key == 'builtin' and arg in ('optmap', 'resmap', 'optmap_all'):
             cur.d['rw'].append(('@' + arg, None, True))
         elif key == 'builtin':
             if arg not in BUILTINS:
@@ -406,7 +406,7 @@ def cps_closure_try(body):
     return text
 
 
-def desugar_option_or_else(text):
+def desugar_option_or_else(text, need_self=True):
     """R.or_else(|| B) -> (match R { Some(v_) => Some(v_), None => B });  R.unwrap_or_else(|| B) -> (match R { Some(v_) => v_,
     None => B });  C.then(|| B) -> (if C { Some(B) } else { None })  — the definitions of Option::or_else /
     Option::unwrap_or_else / bool::then; only for parameterless closures that mention `self`."""
@@ -423,7 +423,7 @@ def desugar_option_or_else(text):
         args = text[op + 1:cl]
         cls = find_closures(mask(args))
         if not cls or cls[0][0] != len(args) - len(args.lstrip()) or cls[0][3] < len(args.rstrip()) \
-                or ('self' not in args and mm.group(1) != 'then'):
+                or (need_self and 'self' not in args and mm.group(1) != 'then'):
             start = op
             continue
         s1, p1, b1, e1 = cls[0]
@@ -440,7 +440,7 @@ def desugar_option_or_else(text):
         start = i + 1
 
 
-def desugar_option_map(text, mode='asref'):
+def desugar_option_map(text, mode='asref', need_self=True):
     """X.as_ref().map(|p| B)  ->  (match X.as_ref() { None => None, Some(p) => Some(B) })  — definition of Option::map;
     applied only when the closure body mentions `self` (Verus rejects closures capturing `&mut self`).
     mode 'asref': only receivers ending in .as_ref() / .ok();  'opt': any receiver, taken to be an Option;
@@ -459,7 +459,7 @@ def desugar_option_map(text, mode='asref'):
         cl = match_close(m, op)
         args = text[op + 1:cl]
         cls = find_closures(mask(args))
-        if not cls or cls[0][0] != len(args) - len(args.lstrip()) or cls[0][3] < len(args.rstrip()) or 'self' not in args:
+        if not cls or cls[0][0] != len(args) - len(args.lstrip()) or cls[0][3] < len(args.rstrip()) or (need_self and 'self' not in args):
             start = op
             continue
         s1, p1, b1, e1 = cls[0]
@@ -493,11 +493,11 @@ def apply_rw(text, rws, where, lost=None):
             text, n2 = desugar_option_map(text)
             n_applied += n + n2
             continue
-        if pat in ('@optmap', '@resmap'):
+        if pat in ('@optmap', '@resmap', '@optmap_all'):
             n0 = 0
-            if pat == '@optmap':
-                text, n0 = desugar_option_or_else(text)
-            text, n = desugar_option_map(text, 'opt' if pat == '@optmap' else 'res')
+            if pat != '@resmap':
+                text, n0 = desugar_option_or_else(text, need_self=(pat != '@optmap_all'))
+            text, n = desugar_option_map(text, 'res' if pat == '@resmap' else 'opt', need_self=(pat != '@optmap_all'))
             n += n0
             if n == 0 and required:
                 raise LostAnchor('%s: builtin %s matches nothing' % (where, pat))
